@@ -26,7 +26,8 @@ import fcommon
 import c07
 
 
-SCRATCH = re.compile(r"/\S*?/c\d+/")
+# the case directories of the harness (harness/common.go caseDirName)
+SCRATCH = re.compile(r"/\S*?/(?:c\d+|my ledger \d+|бухгалтерия\d+|taxes \[\d+\]|books\{\d+\})/")
 
 
 def norm_diag(d):
